@@ -1394,6 +1394,11 @@ handshake_login(int dns_fd, int seed)
 
 		if (read > 0) {
 			int netmask;
+
+			/* The reply is not NUL terminated: keep sscanf() below from
+			   running on into whatever this buffer held before */
+			in[MIN(read, (int) sizeof(in) - 1)] = '\0';
+
 			if (strncmp("LNAK", in, 4) == 0) {
 				fprintf(stderr, "Bad password\n");
 				return 1;
